@@ -404,7 +404,16 @@ Inductive event :=
 | ECacheEvict (fs : list N)
 | EOpen (cid : N) (lo hi : bound)
 | EStep (cid : N) (o : op)
-| EClose (cid : N).
+| EClose (cid : N)
+(* a write in its parts (KeyValueStore::write): the writer is given the next sequence number under
+   the store mutex; it inserts its entries, one at a time, into the memtable it captured, with no
+   lock held; when it is the head of the wait list it publishes its sequence number to readers.
+   Between EAssign and EPublish the entries sit in the memtable with a timestamp NEWER than the read
+   timestamp a scan takes.  (Which memtable and which keys is left open: any live memtable, any
+   entry not there yet.  EWrite above is the same thing done at once, by a lone writer.) *)
+| EAssign
+| EInsert (m : N) (k : key) (n : N) (v : option value)
+| EPublish (n : N).
 
 Inductive outcome := ONone | OObs (o : obs) | OErr (e : merr).
 
@@ -484,8 +493,24 @@ Definition do_close (c : cfg) (cid : N) (sc : scan) (s : machine) : machine :=
   let s := fold_left (fun s m => upd_mt (mt_drop_iter c) m s) (sc_mems sc) s in
   if sc_holds sc then vref_drop (sc_ver sc) s else s.
 
+(* no memtable holds an entry with this key and timestamp yet *)
+Definition fresh_in (s : machine) (k : key) (n : N) : bool :=
+  forallb (fun y => forallb (fun e => negb (keqb (ek e) k && N.eqb (ets e) n)) (mt_ents y)) (ms_mts s).
+Definition set_seq (s : machine) (n : N) : machine :=
+  mkMS n (ms_vis s) (ms_mem s) (ms_imm s) (ms_mts s) (ms_vers s) (ms_cur s) (ms_refs s) (ms_disk s) (ms_cache s) (ms_scans s) (ms_next s).
+Definition set_vis (s : machine) (n : N) : machine :=
+  mkMS (ms_seq s) n (ms_mem s) (ms_imm s) (ms_mts s) (ms_vers s) (ms_cur s) (ms_refs s) (ms_disk s) (ms_cache s) (ms_scans s) (ms_next s).
+Definition insert_ok (s : machine) (m : N) (k : key) (n : N) : bool :=
+  (ms_vis s <? n)%N && (n <=? ms_seq s)%N &&
+  match find_mt s m with Some y => negb (mt_freed y) | None => false end && fresh_in s k n.
+
 Definition mstep (c : cfg) (s : machine) (e : event) : machine * outcome :=
   match e with
+  | EAssign => (set_seq s (ms_seq s + 1)%N, ONone)
+  | EInsert m k n v =>
+      if insert_ok s m k n then (upd_mt (mt_insert (mkE k n v)) m s, ONone) else (s, OErr BadEvent)
+  | EPublish n =>
+      if (ms_vis s <? n)%N && (n <=? ms_seq s)%N then (set_vis s n, ONone) else (s, OErr BadEvent)
   | EWrite b => (do_write b s, ONone)
   | ERollover =>
       match ms_imm s with
@@ -589,11 +614,14 @@ Definition open_wfb (c : cfg) (s : machine) (lo hi : bound) : bool :=
   (total_size (map (look_of s) (open_mems s)) (cur_levels s) + 2 <=? cf_fuel c).
 
 (* ---- what the statement "the cursor stays a snapshot, writes under it included" needs *)
-(* at scan-open: the read timestamp is a sequence number already handed out, and nothing in the
-   store carries a later one (so every later write is newer than everything the cursor holds) *)
+(* at scan-open: the read timestamp is a sequence number already handed out, nothing in the store
+   carries a later one, and nothing in the files is newer than the read timestamp (so every later
+   write or insertion is newer than the snapshot and differs from everything the cursor holds) *)
 Definition open_tsb (s : machine) : bool :=
   (ms_vis s <=? ms_seq s)%N &&
-  forallb (fun e => (ets e <=? ms_seq s)%N) (all_entries (map (look_of s) (open_mems s)) (cur_levels s)).
+  forallb (fun e => (ets e <=? ms_seq s)%N) (all_entries (map (look_of s) (open_mems s)) (cur_levels s)) &&
+  (* the files hold published writes only (what is still in flight is in a memtable) *)
+  forallb (fun e => (ets e <=? ms_vis s)%N) (concat (map f_ents (concat (cur_levels s)))).
 
 Fixpoint keys_distinctb (l : list key) : bool :=
   match l with [] => true | k :: r => negb (existsb (keqb k) r) && keys_distinctb r end.
@@ -609,9 +637,39 @@ Definition held_ok (cid : N) (e : event) : bool :=
   end.
 (* the loops of the cursor models are fuelled (the Rust loops are not): fuel that is enough for
    everything the cursor holds at scan-open plus everything written while it is held *)
-Definition wlen (e : event) : Z := match e with EWrite b => len b | _ => 0%Z end.
+Definition wlen (e : event) : Z := match e with EWrite b => len b | EInsert _ _ _ _ => 1%Z | _ => 0%Z end.
 Fixpoint pending (es : list event) : Z := match es with [] => 0%Z | e :: r => (wlen e + pending r)%Z end.
 Definition scan_total (s : machine) : Z := Z.of_nat (total_size (map (look_of s) (open_mems s)) (cur_levels s)).
 Definition run_bound (s : machine) (es : list event) : Z := (scan_total s + 6 + pending es)%Z.
 Definition fuel_enoughb (c : cfg) (s : machine) (es : list event) : bool :=
   ((2 * scan_total s + 2) * (run_bound s es + 4) <? Z.of_nat (cf_fuel c))%Z.
+
+(* ---- which histories the reachability theorem covers (C07_cursor_snapshot_stable_accepted): what
+        makes the hypotheses open_wfb / open_tsb INVARIANTS instead of hypotheses *)
+Definition file_entries (v : list (list file)) : list entry := concat (map f_ents (concat v)).
+(* files sorted, every level below L0 sorted end to end, no (key, timestamp) twice *)
+Definition levels_wfb (v : list (list file)) : bool :=
+  forallb (fun f => sortedb (f_ents f)) (concat v) &&
+  forallb (fun level => sortedb (concat (map f_ents level))) (tl v) &&
+  distinctb (file_entries v).
+Definition has_kt (e : entry) (l : list entry) : bool :=
+  existsb (fun x => match ecmp e x with Eq => true | _ => false end) l.
+(* what a compaction / move / GC may install: a well-formed arrangement of (some of) the (key,
+   timestamp)s the current version holds - it may drop, it may not invent *)
+Definition install_okb (s : machine) (levels : list (list file)) : bool :=
+  levels_wfb levels && forallb (fun e => has_kt e (file_entries (cur_levels s))) (file_entries levels).
+(* the flush writes the immutable memtable out once the writers that still insert into it have published *)
+Definition flush_okb (s : machine) : bool :=
+  match ms_imm s with Some m => forallb (fun e => (ets e <=? ms_vis s)%N) (look_of s m) | None => true end.
+Definition acc_ev (s : machine) (e : event) : bool :=
+  match e with
+  | EWrite b => keys_distinctb (map fst b)
+  | EFlushDone _ => flush_okb s
+  | EInstall levels => install_okb s levels
+  | _ => true
+  end.
+Fixpoint acc_run (c : cfg) (s : machine) (es : list event) : bool :=
+  match es with
+  | [] => true
+  | e :: r => acc_ev s e && match snd (mstep c s e) with OErr _ => true | _ => acc_run c (fst (mstep c s e)) r end
+  end.
